@@ -207,6 +207,12 @@ class LegacyDFXPWriter(BaseWriter):
             elif node.type_ == CaptionNode.STYLE:
                 line = self._recreate_span(line, node, dfxp)
 
+        if self.open_span:
+            # a style that is never ended still has to be closed here: it
+            # must not leak into the next caption or the next write()
+            line = line.rstrip() + '</span>'
+            self.open_span = False
+
         return line.rstrip()
 
     def _recreate_span(self, line, node, dfxp):
